@@ -47,8 +47,22 @@ func (m *Machine) callValue(fv Value, cc *ssa.CallCommon, args []Value) Value {
 	panic(fmt.Sprintf("callValue %T", fv))
 }
 
+// methods of these third-party types are never executed (stubbed or havoc'd); their contract
+// is that a pointer-receiver method dereferences its receiver, so calling one on a nil pointer
+// is a nil-dereference panic
+var nilRecvPkgs = []string{"(*github.com/pion/", "(*github.com/gorilla/", "(*github.com/prometheus/"}
+
 func (m *Machine) callFn(fn *ssa.Function, args []Value, free ...Value) Value {
 	name := fn.String()
+	if len(args) > 0 && fn.Signature.Recv() != nil {
+		if _, isNil := args[0].(NilPtr); isNil {
+			for _, p := range nilRecvPkgs {
+				if strings.HasPrefix(name, p) {
+					m.require(False, "panic", "nil pointer dereference: method "+fn.Name()+" called on a nil "+fn.Signature.Recv().Type().String())
+				}
+			}
+		}
+	}
 	if r, ok := m.redirect(name, args); ok {
 		return r
 	}
@@ -86,11 +100,24 @@ func (m *Machine) enterListed(name string) bool {
 var stopPrefixes = []string{"github.com/prometheus", "github.com/pion", "fmt.", "log.", "encoding/json.", "reflect.", "net/http.", "net/url.", "regexp.", "os.", "syscall.", "runtime."}
 
 func (m *Machine) havoc(res *types.Tuple, tag string) Value {
-	mk := func(t types.Type) Value {
+	// (value..., error) convention: the error is decided first; on error the other results
+	// are zero values, otherwise pointers are fresh non-nil objects
+	failed := false
+	n := res.Len()
+	if n >= 2 && res.At(n-1).Type().String() == "error" {
+		failed = !m.branch(m.newVar(tag+".err.nil", 0))
+	}
+	mk := func(t types.Type, last bool) Value {
 		switch u := t.Underlying().(type) {
 		case *types.Basic:
+			if failed {
+				return m.zero(t)
+			}
 			if u.Kind() == types.String {
 				return m.symString(tag, 8)
+			}
+			if isFloat(t) {
+				return m.zero(t)
 			}
 			w := width(t)
 			if w == 0 {
@@ -100,23 +127,42 @@ func (m *Machine) havoc(res *types.Tuple, tag string) Value {
 				return m.newVar(tag, w)
 			}
 		case *types.Interface:
-			if t.String() == "error" && m.branch(m.newVar(tag+".nil", 0)) {
+			if t.String() == "error" {
+				if n >= 2 && last {
+					if !failed {
+						return Iface{}
+					}
+				} else if m.branch(m.newVar(tag+".nil", 0)) {
+					return Iface{}
+				}
+				m.opaqueSeq++
+				return Iface{t: t, v: &Opaque{tag: "error:" + tag, id: m.opaqueSeq}}
+			}
+			if failed {
 				return Iface{}
 			}
 			m.opaqueSeq++
 			return Iface{t: t, v: &Opaque{tag: tag, id: m.opaqueSeq}}
+		case *types.Pointer:
+			if failed {
+				return NilPtr{}
+			}
+			if _, isStruct := u.Elem().Underlying().(*types.Struct); isStruct {
+				v := m.zero(u.Elem())
+				return SlotPtr{&v}
+			}
 		}
 		return m.zero(t)
 	}
-	switch res.Len() {
+	switch n {
 	case 0:
 		return nil
 	case 1:
-		return mk(res.At(0).Type())
+		return mk(res.At(0).Type(), true)
 	}
-	tp := make(Tuple, res.Len())
+	tp := make(Tuple, n)
 	for i := range tp {
-		tp[i] = mk(res.At(i).Type())
+		tp[i] = mk(res.At(i).Type(), i == n-1)
 	}
 	return tp
 }
